@@ -271,12 +271,12 @@ def eval_case(case):
             got = float(row[key])
             if ref[key] is None:
                 continue
-            if abs(got - ref[key]) > 1e-12 * max(1, abs(ref[key])):
+            if not abs(got - ref[key]) <= 1e-12 * max(1, abs(ref[key])):
                 fail(f'pooled_{key}', f'group {gi} (k={g["k"]}, {len(g["trials"])} trials): '
                      f'{key}={got!r}, pooled reference {ref[key]!r}')
         for key in ('single_qubit_p_est', 'single_qubit_p_se'):
             got = np.asarray(row[key], dtype=float)
-            if got.shape != ref[key].shape or np.max(np.abs(got - ref[key])) > 1e-12:
+            if got.shape != ref[key].shape or not np.max(np.abs(got - ref[key])) <= 1e-12:
                 fail(f'pooled_{key}', f'group {gi}: {key}={got.tolist()} reference {ref[key].tolist()}')
     if len(dfs) > 1 and not fails:
         by2 = rows_by_group(dfs[1], groups)
@@ -288,7 +288,7 @@ def eval_case(case):
                 a, b = float(byg[gi][0][key]), float(by2[gi][0][key])
                 if np.isnan(a) and np.isnan(b):
                     continue
-                if abs(a - b) > 1e-12 * max(1, abs(a)):
+                if not abs(a - b) <= 1e-12 * max(1, abs(a)):
                     fail('partition_invariant', f'group {gi}: {key} differs between layouts: {a!r} vs {b!r}')
     shutil.rmtree(base, ignore_errors=True)
     # non-triviality
